@@ -147,6 +147,42 @@ def random_keys(seed, tier):
     return batches
 
 
+def random_cfg_keys(seed, tier):
+    """Random configurations (not the factory one): 1-5 mappings over a pool of ten keys, each mapping a random subset
+    with notes from a small set (collisions, the ends of the range) and random channel offsets; a random subset of the
+    actions (so that some up/down pairs are incomplete), random defaults incl. the default mapping, velocity and mode;
+    keys that are actions in the configuration but notes in a mapping (the action wins)."""
+    rng = random.Random(seed * 3571 + 29)
+    n_cfg, n_walks, length = (12, 6, 150) if tier == "quick" else (120, 12, 300)
+    pool = ["KEY_Q", "KEY_W", "KEY_E", "KEY_R", "KEY_T", "KEY_Y", "KEY_U", "KEY_I", "KEY_O", "KEY_P"]
+    act_keys = ["KEY_F1", "KEY_F2", "KEY_F3", "KEY_F4", "KEY_F5", "KEY_F6", "KEY_F7", "KEY_F8", "KEY_F9", "KEY_F10", "KEY_F11",
+                "KEY_F12", "KEY_ESC"]
+    all_acts = ["octave_down", "octave_up", "semitone_down", "semitone_up", "channel_down", "channel_up", "channel", "mapping",
+                "cc_learning", "multinote", "mapping_down", "mapping_up", "panic"]
+    batches = []
+    for ci in range(n_cfg):
+        nm = rng.choice([1, 1, 2, 3, 5])
+        notes = rng.sample([0, 1, 11, 12, 59, 60, 61, 72, 115, 116, 126, 127], rng.choice([2, 3, 5]))
+        maps = []
+        for m in range(nm):
+            ks = rng.sample(pool, rng.randrange(1, len(pool) + 1))
+            maps.append({"name": "M%d" % (m + 1), "keys": {k: {"n": rng.choice(notes), "o": rng.choice([0, 0, 0, 1, 7, 15])} for k in ks},
+                         "axes": {}})
+        chosen = rng.sample(range(len(all_acts)), rng.randrange(2, len(all_acts) + 1))
+        actions = {act_keys[i]: all_acts[i] for i in chosen}
+        if rng.random() < 0.3:      # a pool key that is an action too: the action wins, its note role is dead
+            actions[rng.choice(pool)] = rng.choice(["octave_up", "panic", "mapping_up"])
+        cfg = base_cfg(mode=rng.choice(["off", "no_repeat", "interrupt", "retrigger"]), vel=rng.choice([1, 64, 100, 127]),
+                       dOct=rng.choice([0, 0, 1, -1, 4, -5]), dSemi=rng.choice([0, 0, 1, -7, 11]), dChan=rng.randrange(16),
+                       dMap=rng.randrange(nm) + 1, actions=actions, maps=maps)
+        note_keys = [k for k in pool if k not in actions]
+        if not note_keys:
+            continue
+        walks = [random_key_walk(rng, cfg, length, note_keys, sorted(actions), p_action=rng.choice([0.1, 0.3])) for _ in range(n_walks)]
+        batches.append({"cfg": cfg, "cfgmode": "literal", "sub": rng.choice(["", "", "Keyboard"]), "walks": walks})
+    return batches
+
+
 def random_exit(seed, tier):
     """Factory keyboard (exit sequence LEFTALT+ESC, ESC is also panic) and longer sequences whose
     members are note keys / action keys / unmapped keys; the sequence is completed and released often."""
